@@ -355,3 +355,54 @@ Example C18_example_conn :
   c_closed (fst (conn_run (new_conn false) ex_peer_goaway_3)) = Some 264.
 Proof. vm_compute. auto 10. Qed.
 Print Assumptions C18_example_conn.
+
+(** More of the "forbidden ones abort the stream or connection with the RFC 9114 error" table:
+    GOAWAY / SETTINGS on a request stream => "unexpected frame" + connection closed with
+    H3_FRAME_UNEXPECTED; DATA / a second HEADERS frame after the trailers => error, nothing more is
+    delivered, trailers reported once; on the control stream EVERY frame other than SETTINGS first
+    => H3_MISSING_SETTINGS, every frame other than GOAWAY after SETTINGS (a second SETTINGS, DATA,
+    HEADERS) => H3_FRAME_UNEXPECTED; GOAWAY: ignored by a server (push ID), at a client
+    H3_ID_ERROR for an ID that is not a client-initiated bidirectional stream ID or that is larger
+    than an earlier one, else a graceful H3_NO_ERROR close when no request is in flight.
+    (The control-stream statements are over what ParseNext delivers; which bytes deliver which frame is
+    C18_settings_goaway_values / C18_unknown_ignored_reserved_rejected / parse_next_data.) *)
+Theorem C18_forbidden_table :
+  (forall x blen th lh ie rest l id, x_rem x = 0 -> x_closed x = None -> benign (x_src x) -> venc th 7 -> venc lh l -> venc ie id -> zlen ie = l ->
+     s_data (x_src x) = th ++ lh ++ ie ++ rest ->
+     exists x', stream_read x blen = ([], Some EUnexpectedFrame, x') /\ x_closed x' = Some h3ErrCodeFrameUnexpected) /\
+  (forall x blen th lh pl rest fr, x_rem x = 0 -> x_closed x = None -> benign (x_src x) -> venc th 4 -> venc lh (zlen pl) -> zlen pl <= maxSettingsLen ->
+     settings_payload pl = inr fr -> s_data (x_src x) = th ++ lh ++ pl ++ rest ->
+     exists x', stream_read x blen = ([], Some EUnexpectedFrame, x') /\ x_closed x' = Some h3ErrCodeFrameUnexpected) /\
+  (forall x blen th lh rest l, x_rem x = 0 -> x_trailer x = true -> benign (x_src x) -> venc th 0 -> venc lh l ->
+     s_data (x_src x) = th ++ lh ++ rest ->
+     exists x', stream_read x blen = ([], Some EDataAfterTrailers, x') /\ x_trailers x' = x_trailers x /\ x_closed x' = x_closed x) /\
+  (forall x blen th lh rest l, x_rem x = 0 -> x_trailer x = true -> benign (x_src x) -> venc th 1 -> venc lh l ->
+     s_data (x_src x) = th ++ lh ++ rest ->
+     exists x', stream_read x blen = ([], Some EHeadersAfterTrailers, x') /\ x_trailers x' = x_trailers x /\ x_closed x' = x_closed x) /\
+  (forall c s s' fr, c_closed c = None -> parse_next (fuel_of s) s (c_closed c) = (inr fr, s', None) ->
+     (forall st, fr <> FSettings st) -> c_closed (control_stream c s) = Some h3ErrCodeMissingSettings) /\
+  (forall f c s s' fr, c_closed c = None -> parse_next (fuel_of s) s (c_closed c) = (inr fr, s', None) ->
+     (forall id, fr <> FGoaway id) -> c_closed (control_loop (S f) c s) = Some h3ErrCodeFrameUnexpected) /\
+  (forall f c s s' id, c_closed c = None -> parse_next (fuel_of s) s (c_closed c) = (inr (FGoaway id), s', None) ->
+     (c_server c = true -> control_loop (S f) c s = control_loop f (c_set_closed c None) s') /\
+     (c_server c = false -> id mod 4 <> 0 -> c_closed (control_loop (S f) c s) = Some h3ErrCodeIDError) /\
+     (c_server c = false -> id mod 4 = 0 -> forall m, c_goaway c = Some m -> m < id ->
+        c_closed (control_loop (S f) c s) = Some h3ErrCodeIDError) /\
+     (c_server c = false -> id mod 4 = 0 -> (c_goaway c = None \/ exists m, c_goaway c = Some m /\ id <= m) ->
+        c_closed (control_loop (S f) c s) = Some h3ErrCodeNoError /\ c_goaway (control_loop (S f) c s) = Some id)).
+Proof. exact forbidden_table. Qed.
+Print Assumptions C18_forbidden_table.
+
+(** Non-vacuity: SETTINGS (04 00) and GOAWAY (07 01 00) on a request stream; DATA after trailers
+    (HEADERS 01 02 aa bb, then DATA 00 01 07); the bytes of C18_example_conn instantiate the
+    control-stream hypotheses. *)
+Example C18_example_forbidden :
+  (let '(out, e, x') := stream_read (new_stream (mkSrc [4; 0; 0; 1; 9] [] EEOF false) 64) 10 in
+   out = [] /\ e = Some EUnexpectedFrame /\ x_closed x' = Some 261) /\
+  (let '(out, e, x') := stream_read (new_stream (mkSrc [7; 1; 0] [1; 1; 1] EEOF false) 64) 10 in
+   out = [] /\ e = Some EUnexpectedFrame /\ x_closed x' = Some 261) /\
+  (let '(out, e, x') := stream_reads (new_stream (mkSrc [0; 1; 5; 1; 2; 170; 187; 0; 1; 7] [] EEOF false) 64) [10; 10; 10] in
+   out = [5] /\ e = Some EDataAfterTrailers /\ x_trailers x' = [[170; 187]] /\ x_closed x' = None) /\
+  parse_next 9 (mkSrc [4; 0; 4; 0] [] EBlocked false) None = (inr (FSettings (mkSettings (-1) false false [])), mkSrc [4; 0] [] EBlocked false, None).
+Proof. vm_compute. auto 12. Qed.
+Print Assumptions C18_example_forbidden.
